@@ -722,6 +722,7 @@ def _parse_source_for_lambda(
     func_name = None
     start_token = None
     source, lambda_line = _get_sourcelines(ast_source)
+    first_line = lambda_line
     is_lambda = getattr(ast_source, "__name__", None) == "<lambda>"
     t_stream = None
     while func_name is None:
@@ -748,12 +749,19 @@ def _parse_source_for_lambda(
         a_module = ast.parse(function_source)
         lda = rewrite_func_as_lambda(a_module.body[0])  # type: ignore
     else:
-        # Grab all the lambdas on a single line
+        # Grab all the lambdas on a single line. We may have backed up to find the start of
+        # the statement: only a lambda that starts on the line the callable starts on can be
+        # the callable, and the ones in front of it do not end the search.
+        own_line = first_line - lambda_line + 1
         lambdas_on_a_line = defaultdict(list)
         saw_new_line = False
         while not saw_new_line:
+            lda_line = start_token.start[0]
             lda, saw_new_line = _get_lambda_in_stream(t_stream, start_token)
-            lambdas_on_a_line[func_name.string if func_name is not None else None].append(lda)
+            if lda_line == own_line:
+                lambdas_on_a_line[func_name.string if func_name is not None else None].append(lda)
+            elif lda_line < own_line:
+                saw_new_line = False
 
             if saw_new_line:
                 break
